@@ -74,6 +74,13 @@ def build_prog(bt, name, prog, cls="Strategy", parent=None, dup=False, twin=None
             else:
                 obj = None
         if k["attach"] == "ctor":
+            if not isinstance(obj, str) and int(k["name"][1:]) % 2 == 0:
+                # every other pre-built child is looked at (printed, its members listed) before it is handed to its parent - the usual thing
+                # to do with a freshly built sub-tree; what was seen then must not stick to the copies wired into the bigger tree
+                repr(obj)
+                for m_ in obj.members:
+                    m_.full_name
+                    repr(m_)
             ctor_children.append((final, obj))
         else:
             later.append(k)
